@@ -3,6 +3,8 @@ package main
 import (
 	"fmt"
 	"go/types"
+
+	"golang.org/x/tools/go/ssa"
 )
 
 // tryReplay turns a solver model into a concrete test of the real code where a replay template exists.
@@ -78,4 +80,25 @@ func (eng *Engine) structuralObligations(s *Structural) []*Obligation {
 		}
 	}
 	return out
+}
+
+// sameTypeParams reports whether an instantiation passes exactly the origin's
+// type parameters (by name) as its type arguments.
+func sameTypeParams(callee *ssa.Function) bool {
+	o := callee.Origin()
+	if o == nil {
+		return true
+	}
+	tps := o.TypeParams()
+	tas := callee.TypeArgs()
+	if tps == nil || tps.Len() != len(tas) {
+		return false
+	}
+	for i, ta := range tas {
+		tp, ok := types.Unalias(ta).(*types.TypeParam)
+		if !ok || tp.Obj().Name() != tps.At(i).Obj().Name() {
+			return false
+		}
+	}
+	return true
 }
